@@ -1517,7 +1517,12 @@ func (r *runningStep) closedEarly(stageToMarkUnresolvable StageID, priorStageFai
 	} else {
 		r.transitionRunningStage(StageIDClosed)
 	}
-	closedOutput := any(map[any]any{"cancelled": r.cancelled, "close_requested": r.closed.Load()})
+	// The cancelled flag is written under the step lock when a stop condition arrives (provideCancelledInput),
+	// which can happen while the step is being closed for another reason.
+	r.lock.Lock()
+	cancelled := r.cancelled
+	r.lock.Unlock()
+	closedOutput := any(map[any]any{"cancelled": cancelled, "close_requested": r.closed.Load()})
 
 	r.completeStep(
 		StageIDClosed,
